@@ -84,6 +84,53 @@ def rule_IT(FA):
         if ok:
             out.append(Inst('R-IT', key, 'ok', nxt['span'], 'cursor writes guarded by `%s`, unit steps, len() = %s' % (fmt_atom(guard), show(lret)), props,
                             sample={'guard': fmt_atom(guard), 'len': show(lret)}))
+    # read-ahead: after `self.i += 1` an access that still depends on the advanced cursor (`data[self.i >> 6]`) was not
+    # covered by the test `i < bound` made before the step
+    for base, ms in sorted(by_base.items()):
+        for name in ('next', 'next_back'):
+            m = ms.get(name)
+            if m is None:
+                continue
+            F2, fw = apply_forwarding(FA, m)
+            if not fw:
+                continue
+            F2.dom()
+            bad = None
+            n_acc = 0
+            for bi, b in enumerate(F2.blocks):
+                if bi not in F2.reach:
+                    continue
+                t = b['t']
+                idxs = []
+                if t['k'] == 'assert' and 'bounds' in t.get('msg', {}):
+                    idxs.append(t['msg']['index'])
+                if t['k'] == 'call' and 'fn' in t['f']:
+                    fn = t['f']['fn']
+                    if fn['name'] in ('index', 'index_mut', 'get_unchecked', 'get_unchecked_mut') and len(t['args']) == 2:
+                        idxs.append(t['args'][1])
+                    elif fn['unsafe'] and (fn.get('local') or fn.get('crate') == 'qwt'):
+                        idxs.extend(t['args'][1:])
+                for o in idxs:
+                    if 'p' not in o:
+                        continue
+                    n_acc += 1
+                    tm = norm(F2.operand_term(o))
+                    for fld, _ in fw:
+                        old = ('field', SELF, fld)
+                        ahead = [st for st in subterms(tm) if isinstance(st, tuple) and st[:2] == ('bin', 'Add') and old in (st[2], st[3])
+                                 and any(x[:1] == ('const',) and isinstance(x[1], int) and x[1] >= 1 for x in (st[2], st[3]))]
+                        if not ahead:
+                            continue
+                        covered = any(a[0] in ('<', '<=') and contains(a[1], ahead[0]) for a in path_atoms(F2, bi))
+                        if not covered:
+                            bad = (t.get('line', ''), show(tm)[:80], fld)
+            key = 'R-IT|%s|%s|read-ahead' % (base, name)
+            if bad:
+                out.append(Inst('R-IT', key, 'violation', bad[0],
+                                '%s() accesses `%s` AFTER advancing `%s`: only the position before the step was tested against the bound, the access is one element ahead (out of bounds at the end of the storage)' % (
+                                    name, bad[1], bad[2]), props))
+            elif n_acc:
+                out.append(Inst('R-IT', key, 'ok', m['span'], '%d storage access(es), none depends on the cursor after its step without a new bound test' % n_acc, props, nontrivial=False))
     # constructors of WTIterator set (0, len)
     for f in FA.lib_fns(include_closures=False):
         if f['name'] in ('iter', 'into_iter') and f.get('_base') in ('quadwt::QWaveletTree', 'quadwt::huffqwt::HuffQWaveletTree', 'binwt::WaveletTree'):
@@ -141,7 +188,7 @@ def _mentions_old_content(t):
 
 def rule_NON(FA):
     out = []
-    props = ['C08', 'C19']
+    props = ['C08', 'C19', 'C10', 'C06']
     base = 'bitvector::BitVectorMut'
     n = 0
     for f in FA.lib_fns(include_closures=False):
@@ -172,7 +219,27 @@ def rule_NON(FA):
         for bi, fld, val, line, ty in ws:
             if _mentions_old_content(val) or any(_mentions_old_content(a[1]) or (isinstance(a[2], tuple) and _mentions_old_content(a[2])) for a in path_atoms(F, bi)):
                 dep = True
-        if dep:
+        # the compensation must happen on every path that overwrites: an update that is additionally conditional on a
+        # VALIDITY answer of a checked accessor (`if let Some(old) = self.get_bits(..)`) is skipped whenever that accessor
+        # is stricter than this function's own guard, while the bits are still overwritten
+        skipped = None
+        w_atoms = None
+        for bi, t in F.calls():
+            if t['f']['fn']['name'] == 'set_symbol':
+                a = {fmt_atom(x) for x in path_atoms(F, bi)}
+                w_atoms = a if w_atoms is None else (w_atoms & a)
+        for bi, fld, val, line, ty in ws:
+            for a in path_atoms(F, bi):
+                if a[0] == 'is' and fmt_atom(a) not in (w_atoms or set()):
+                    calls = [x for x in subterms(a[1]) if isinstance(x, tuple) and x[:1] == ('call',) and x[1].split('::')[-1] in ('get_bits', 'get', 'get_word')
+                             and x[2] and contains(x[2][0], SELF)]
+                    if calls:
+                        skipped = (line, show(calls[0])[:60])
+        if dep and skipped:
+            out.append(Inst('R-NON', key, 'violation', skipped[0],
+                            '%s overwrites bits on every path but compensates the cached count of ones only when `%s` answers Some: when that accessor rejects a range this function accepts, the overwritten ones stay counted' % (
+                                f['name'], skipped[1]), props, sample={'updates': [show(w[2])[:100] for w in ws]}))
+        elif dep:
             out.append(Inst('R-NON', key, 'ok', f['span'], 'n_ones update depends on the overwritten content', props,
                             sample={'updates': [show(w[2])[:100] for w in ws]}))
         else:
@@ -317,14 +384,17 @@ def rule_MSK(FA):
         out.append(Inst('R-MSK', key, 'violation', '', 'push/len not found (anchor lost)', props))
     else:
         Pf = FA.fn(push)
-        ws = _field_writes(Pf, 'position')
+        # the position counter of the builder is the usize field that push advances by a constant (whatever its name)
+        ws = [w for w in _field_writes(Pf) if w[4] == 'usize']
         lt = summary(FA, ln)
         step = None
+        ctr = 'position'
         for bi, fld, val, line, ty in ws:
-            if val[0] == 'bin' and val[1] == 'Add':
+            if val[0] == 'bin' and val[1] == 'Add' and ('field', SELF, fld) in (val[2], val[3]):
                 for x in (val[2], val[3]):
                     if x[0] == 'const':
                         step = x[1]
+                        ctr = fld
         shift = None
         if lt is not None and lt[0] == 'bin' and lt[1] == 'Shr' and lt[3][0] == 'const':
             shift = lt[3][1]
@@ -338,7 +408,7 @@ def rule_MSK(FA):
             if t['f']['fn']['name'] == 'set_symbol' and len(t['args']) == 3:
                 pos = norm(Pf.operand_term(t['args'][2]))
                 pos = strip_casts(pos)
-                want = norm(('bin', 'BitAnd', ('bin', 'Shr', ('field', SELF, 'position'), ('const', shift if shift is not None else 1)), ('const', 255)))
+                want = norm(('bin', 'BitAnd', ('bin', 'Shr', ('field', SELF, ctr), ('const', shift if shift is not None else 1)), ('const', 255)))
                 ok_pos = pos == want
                 out.append(Inst('R-MSK', 'R-MSK|QVectorBuilder::push position', 'ok' if ok_pos else 'violation', t['line'],
                                 'in-line position is `%s`' % show(pos), props))
@@ -367,7 +437,7 @@ def rule_MSK(FA):
                 continue
             for a in t['args'][:1]:
                 tm = norm(E.operand_term(a))
-                if contains(tm, ('field', SELF, 'data')) or contains(tm, ('field', SELF, 'position')):
+                if any(isinstance(x, tuple) and x[:2] == ('field', SELF) for x in subterms(tm)):
                     touching.append(short_callee(t['f']['fn']))
         if direct or touching:
             good = False
@@ -476,7 +546,7 @@ def rule_DAR(FA):
     inlined; the writer is the public constructor with Inventories::new and the flush helper(s) inlined.  The three arrays
     are identified by the Inventories fields their contents end up in, not by the names of helpers or parameters."""
     out = []
-    props = ['C07']
+    props = ['C07', 'C04']
     from .r_guard import find_method
     sels = [f for f in find_method(FA, 'darray::DArray', 'select1') if not f['unsafe']]
     nws = [f for f in find_method(FA, 'darray::DArray', 'new')]
@@ -523,6 +593,10 @@ def rule_DAR(FA):
         out.append(Inst('R-DAR', 'R-DAR|reader divisors', 'violation', sels[0]['span'], 'cannot find the reader indices `i / D` of subblock_inventory and `i / B` of block_inventory', props))
         return out
     out.append(Inst('R-DAR', 'R-DAR|reader divisors', 'ok', sels[0]['span'], 'reader: subblock = i / %d, block = i / %d' % (D, B), props, sample={'D': D, 'B': B}))
+    geo = _pow2(B) and _pow2(D) and B % D == 0
+    out.append(Inst('R-DAR', 'R-DAR|group geometry', 'ok' if geo else 'violation', sels[0]['span'],
+                    'block of %d positions = %d sub-blocks of %d (powers of two)' % (B, B // D if D else 0, D) if geo else
+                    'block size %d is not a power-of-two multiple of the sub-block size %d: `i & (B-1)` / `i / D` address the wrong entries' % (B, D), props))
     # ---- writer
     W = FA.fn(nw)
     W.dom()
@@ -543,6 +617,8 @@ def rule_DAR(FA):
     enc = []
     ov_terms = []
     trig = False
+    blk_sites = []   # (block, comparison atoms) of every push to block_inventory
+    sub_sites = []   # (block, comparison atoms) of every append to subblock_inventory
     APP = ('push', 'extend', 'resize', 'extend_from_slice', 'append', 'insert', 'resize_with')
     for bi, t in W.calls():
         fn = t['f']['fn']
@@ -552,6 +628,11 @@ def rule_DAR(FA):
         atoms = path_atoms(W, bi)
         if rid in ov_ids:
             ov_terms.append(strip_ref(norm(W.operand_term(t['args'][0]))))
+        cmp_atoms = frozenset(fmt_atom(a) for a in atoms if a[0] in ('<', '<=', '==', '!='))
+        if rid in blk_ids and fn['name'] == 'push':
+            blk_sites.append((bi, cmp_atoms, t['line']))
+        if rid in sub_ids:
+            sub_sites.append((bi, cmp_atoms))
         if rid in blk_ids and fn['name'] == 'push':
             v = norm(W.operand_term(t['args'][1]))
             if any(isinstance(x, tuple) and x and x[0] == 'un' and x[1] == 'Neg' for x in subterms(v)):
@@ -591,6 +672,16 @@ def rule_DAR(FA):
                       sample={'count_terms': [show(c)[:120] for c in cnt_terms]}))
     if n_app < 2:
         out.append(Inst('R-DAR', 'R-DAR|flush_block appends', 'violation', nws[0]['span'], 'expected an append to subblock_inventory in both branches, found %d' % n_app, props))
+    # every group writes one block_inventory entry AND its share of subblock_inventory entries: the reader indexes the
+    # sub-block array with the global i / D, so a group (dense or sparse) that appends nothing shifts every later group
+    lonely = [ln for bi, ca, ln in blk_sites if not any(ca <= cs for _, cs in sub_sites)]
+    if blk_sites:
+        if lonely:
+            out.append(Inst('R-DAR', 'R-DAR|every group appends its sub-block entries', 'violation', lonely[0],
+                            'a group pushes its block_inventory entry on a path where nothing is appended to subblock_inventory: the reader indexes subblock_inventory with the global i / %d, later groups read the wrong entries or past the end' % D, props))
+        else:
+            out.append(Inst('R-DAR', 'R-DAR|every group appends its sub-block entries', 'ok', blk_sites[0][2],
+                            'each of the %d block_inventory pushes has an append to subblock_inventory under the same branch conditions' % len(blk_sites), props))
     # sparse-group pointer: the writer stores -(len(overflow_positions)) - 1 (the index at which this group's positions are
     # appended to that same array); the reader decodes (-p - 1) and indexes overflow_positions with it
     key = 'R-DAR|sparse pointer encoding'
@@ -617,14 +708,20 @@ def rule_DAR(FA):
                                 show(v)[:100], '' if rok else ' and the reader does not decode -(p) - 1'), props, sample={'writer': show(v), 'reader': show(rterm) if rterm else None}))
     # narrowing store is dominated by span < C <= 2^16
     n_cast = 0
-    for bi, b in enumerate(W.blocks):
-        if bi not in W.reach:
+    bodies = [(W, None)]
+    for cg in FA.with_closures(nw)[1:]:
+        CG = FA.fn(cg)
+        CG.dom()
+        bodies.append((CG, cg))   # `.map(|&pos| (pos - first) as u16)`: the narrowing may sit in a closure
+    for WB, cg in bodies:
+      for bi, b in enumerate(WB.blocks):
+        if bi not in WB.reach:
             continue
         for s in b['s']:
             rv = s.get('rv')
             if rv and rv['k'] == 'cast' and rv['to'] == 'u16' and rv['from'] in ('usize', 'u64', 'i64', 'u32'):
                 n_cast += 1
-                atoms = path_atoms(W, bi)
+                atoms = path_atoms(W, bi) if cg is None else site_condition(FA, WB, bi)
                 okc = False
                 seen = []
                 for op, a, c in [x for x in atoms if x[0] in ('<', '<=')]:
@@ -647,6 +744,40 @@ def rule_DAR(FA):
 
 
 # ---------------------------------------------------------------- R-LVL
+
+ELEMENT_ITER = ('iter', 'into_iter', 'copied', 'cloned', 'by_ref', 'as_ref', 'deref', 'as_slice', 'borrow', 'as_mut', 'iter_mut', 'deref_mut',
+                'as_mut_slice', 'enumerate', 'map', 'inspect', 'rev', 'to_vec', 'clone')
+
+
+def _lossy_call(t):
+    """first call in an iterator expression that can drop, merge or repeat elements"""
+    for st in subterms(t):
+        if isinstance(st, tuple) and st[:1] == ('call',) and st[1].split('::')[-1] not in ELEMENT_ITER:
+            return st[1].split('::')[-1]
+    return None
+
+
+def _counting_source(FA, F):
+    """Name of a lossy adaptor in the iterator expression that drives the frequency count (fold receiver, or the loop
+    in which `map.entry(..)` is called), else ''."""
+    for bi, t in F.calls():
+        nm = t['f']['fn']['name']
+        if nm == 'fold' and len(t['args']) == 3:
+            init = norm(F.operand_term(t['args'][1]))
+            if any(isinstance(x, tuple) and x[:1] == ('call',) and 'HashMap' in x[1] for x in subterms(init)):
+                bad = _lossy_call(norm(F.operand_term(t['args'][0])))
+                if bad:
+                    return bad
+        if nm == 'entry' and t['args'] and 'HashMap' in t['f']['fn']['path']:
+            for a in path_atoms(F, bi):
+                if a[0] == 'is' and a[2] == 1:
+                    for st in subterms(a[1]):
+                        if isinstance(st, tuple) and st[:1] == ('call',) and st[1].split('::')[-1] == 'next' and st[2]:
+                            bad = _lossy_call(st[2][0])
+                            if bad:
+                                return bad
+    return ''
+
 
 def _is_lengths_map(ty):
     return 'HashMap<' in ty and 'u32' in ty.split('HashMap<', 1)[1]
@@ -714,6 +845,12 @@ def rule_LVL(FA):
                             freq_mut = _other_uses(F, t2['args'][1]['p']['l'], bj)
                     if freq_mut:
                         good = False
+                    # ... and the counting pass visits every element of the input once: the iterator that drives it is the
+                    # plain element iterator (no chunk_by / dedup / step_by / skip / take / filter / windows in between)
+                    lossy = _counting_source(FA, F)
+                    if lossy:
+                        good = False
+                        freq_mut = freq_mut or ('the frequencies are counted over `%s`, which does not yield every element once' % lossy)
                     # the lengths map must not be touched between the coder and craft_wm_codes
                     lengths_local = t['args'][0]['p']['l'] if 'p' in t['args'][0] else None
                     mutated = _other_uses(F, lengths_local, bi)
@@ -846,6 +983,9 @@ def rule_DEL(FA):
         if not cands:
             out.append(Inst('R-DEL', 'R-DEL|%s::%s::%s' % (base, tr, name), 'violation', '', 'construction path not found (anchor lost)', props))
             continue
+        # a construction path may also delegate to another checked construction path of the same type
+        # (from_iter -> Self::from(collect) -> new)
+        callees = tuple(callees) + tuple(n for b2, _, n, _, _ in DEL_PATHS if b2 == base and n != name)
         for f in cands:
             F = FA.fn(f)
             ret = norm(F.local_term(0))
@@ -958,6 +1098,35 @@ def _spc_accounted(FA, f):
     return out
 
 
+def _spc_single_element(FA, fi, adt):
+    """(field, accessor) when a Vec / boxed-slice field of heap-bearing components is measured through a single element
+    (`first()`, `last()`, `[0]`, `get(0)`) whose size is then used for the whole field."""
+    varlen = {x['name'] for x in adt['fields'] if any(t in ('adt:std::vec::Vec', 'slice') for t in x['tags']) and not any(t.startswith('array:') for t in x['tags'][:1])}
+    single = None
+    iterated = set()
+    for g in FA.with_closures(fi):
+        F = FA.fn(g)
+        for bi, t in F.calls():
+            nm = t['f']['fn']['name']
+            if not t['args']:
+                continue
+            recv = norm(F.operand_term(t['args'][0]))
+            flds = {x[2] for x in subterms(recv) if isinstance(x, tuple) and x[:2] == ('field', SELF) and x[2] in varlen}
+            if not flds:
+                continue
+            if nm in ('iter', 'into_iter', 'iter_mut', 'space_usage_byte') and recv[:2] == ('field', SELF):
+                iterated |= flds
+            if nm in ('first', 'last', 'first_mut', 'last_mut') and recv[:2] == ('field', SELF):
+                single = single or (sorted(flds)[0], nm + '()')
+            if nm in ('get', 'index', 'get_unchecked') and len(t['args']) == 2 and recv[:2] == ('field', SELF):
+                k = norm(F.operand_term(t['args'][1]))
+                if k[:1] == ('const',):
+                    single = single or (sorted(flds)[0], '%s(%s)' % (nm, k[1]))
+    if single and single[0] not in iterated:
+        return single
+    return None
+
+
 SPC_EXCEPTIONS = {
     ('quadwt::huffqwt::HuffQWaveletTree', 'codes_encode'): 'accounted by a constant; the property grants sigma-proportional slack for the code tables',
     ('binwt::WaveletTree', 'codes_encode'): 'accounted by a constant; the property grants sigma-proportional slack for the code tables',
@@ -1026,6 +1195,12 @@ def rule_SPC(FA):
         acc = _spc_accounted(FA, fi)
         missing = [h for h in heap if (h not in got or h not in acc) and '*self' not in got and (base, h) not in SPC_EXCEPTIONS]
         key = 'R-SPC|%s' % base
+        single = _spc_single_element(FA, fi, adt)
+        if single and not missing:
+            out.append(Inst('R-SPC', key, 'violation', f['span'],
+                            'space_usage_byte() of %s measures ONE element of the variable-length field `%s` (`%s`) instead of all of them: components differ in size, the report is not the memory retained' % (
+                                base.split('::')[-1], single[0], single[1]), props, sample={'heap_fields': heap}))
+            continue
         if missing:
             out.append(Inst('R-SPC', key, 'violation', f['span'],
                             'space_usage_byte() of %s does not account heap-bearing field(s) %s' % (base.split('::')[-1], ', '.join(missing)), props,
@@ -1145,4 +1320,273 @@ def rule_NEG(FA):
                         out.append(Inst('R-NEG', key, 'ok', s['line'], 'complement of the stored word', props, sample={'operand': [show(t)[:100] for t in flat]}))
     if n == 0:
         out.append(Inst('R-NEG', 'R-NEG|anchors', 'violation', '', 'no word complement found in BIT = false specialisations (anchor lost)', ['C08', 'C07']))
+    return out
+
+
+# ---------------------------------------------------------------- R-OBJ
+
+def rule_OBJ(FA):
+    """A function that is handed a component by reference (`inventories: &Inventories<BIT>`) must use THAT object: reading a
+    field of `self` of the same type in the same body (with private helpers inlined) contradicts the parameter -- the
+    function is generic in which component it serves but part of it is wired to a fixed one (select0 answered from the
+    ones' tables).  Engler's contradiction rule; no instance exists on the reviewed tree."""
+    out = []
+    n = 0
+    for f in FA.lib_fns(include_closures=False):
+        if f['argc'] < 2 or not f.get('_base') or f['_base'] not in FA.adts:
+            continue
+        self_adt = FA.adts[f['_base']]
+        if not f['locals'][1].lstrip('&').replace('mut ', '').startswith(f['_base'].split('::')[-1]) and base_type(f['locals'][1].lstrip('&').replace('mut ', '')) != f['_base']:
+            continue
+        ptypes = {}
+        for k in range(2, f['argc'] + 1):
+            ty = f['locals'][k]
+            if not ty.startswith('&'):
+                continue
+            b = base_type(ty.lstrip('&').replace('mut ', ''))
+            if b in FA.adts and b != f['_base']:
+                ptypes[b] = f['names'].get(str(k), '_%d' % k)
+        if not ptypes:
+            continue
+        same = {}
+        for fld in self_adt['fields']:
+            for tg in fld['tags']:
+                if tg.startswith('adt:') and tg[4:] in ptypes:
+                    same[fld['name']] = tg[4:]
+        if not same:
+            continue
+        n += 1
+        G = FA.inlined(f)
+        F = FA.fn(G)
+        F.dom()
+        hits = []
+        for bi, b in enumerate(F.blocks):
+            if bi not in F.reach:
+                continue
+            ops = []
+            for s in b['s']:
+                ops.extend(rv_operands(s['rv']))
+            t = b['t']
+            if t['k'] == 'call':
+                ops.extend(t['args'])
+            for o in ops:
+                if 'p' not in o:
+                    continue
+                tm = norm(F.place_term(o['p']))
+                for st in subterms(tm):
+                    if isinstance(st, tuple) and st[:2] == ('field', SELF) and st[2] in same:
+                        hits.append((st[2], b.get('origin', f['path']), (b['s'][0]['line'] if b['s'] else t.get('line', ''))))
+        key = 'R-OBJ|%s' % fn_key(f)
+        props = props_by_module(fn_key(f))
+        if hits:
+            fld, origin, line = hits[0]
+            out.append(Inst('R-OBJ', key, 'violation', line,
+                            '`%s` receives `%s: &%s` but also reads `self.%s` of the same type%s: the work is not done on the object it was given' % (
+                                f['name'], ptypes[same[fld]], same[fld].split('::')[-1], fld,
+                                (' (in helper %s)' % origin.split('::')[-1]) if origin != f['path'] else ''), props))
+        else:
+            out.append(Inst('R-OBJ', key, 'ok', f['span'], 'uses only the `%s` it is given (fields of the same type on self: %s)' % (
+                ', '.join(sorted(ptypes.values())), ', '.join(sorted(same))), props))
+    return out
+
+
+def props_by_module(path):
+    from .r_arith import props_of_module
+    return props_of_module(path)
+
+
+# ---------------------------------------------------------------- R-ALL
+
+EXACT_CHUNKS = ('chunks_exact', 'chunks_exact_mut', 'rchunks_exact', 'rchunks_exact_mut', 'array_chunks', 'as_chunks')
+
+
+def rule_ALL(FA):
+    """Every element is visited: an iteration in exact chunks (`chunks_exact(k)` ..) silently skips the last len % k
+    elements unless the remainder is consumed as well (`.remainder()` / `into_remainder()`), or the length is a multiple of
+    k by construction (a fixed array whose length divides).  No instance exists on the reviewed tree; the rule guards
+    "process two words per step"-style optimisations of the word-level primitives and scans."""
+    out = []
+    for f in FA.lib_fns():
+        F = FA.fn(f)
+        calls = list(F.calls())
+        has_rem = any(t['f']['fn']['name'] in ('remainder', 'into_remainder') for _, t in calls)
+        for bi, t in calls:
+            fn = t['f']['fn']
+            if fn['name'] not in EXACT_CHUNKS or fn.get('local'):
+                continue
+            pf = FA.closure_parent(f)
+            key = 'R-ALL|%s|%s' % (fn_key(pf), fn['name'])
+            k = norm(F.operand_term(t['args'][1])) if len(t['args']) > 1 else ('?',)
+            recv_ty = F.locals[t['args'][0]['p']['l']] if t['args'] and 'p' in t['args'][0] else ''
+            m = re.search(r'\[[^;\]]+; (\d+)\]', recv_ty)
+            if m and k[0] == 'const' and k[1] and int(m.group(1)) % k[1] == 0:
+                out.append(Inst('R-ALL', key, 'ok', t.get('line', ''), 'array of %s elements in chunks of %d: no remainder' % (m.group(1), k[1]), props_by_module(fn_key(pf))))
+            elif has_rem:
+                out.append(Inst('R-ALL', key, 'ok', t.get('line', ''), 'the remainder of the exact chunks is consumed', props_by_module(fn_key(pf))))
+            else:
+                out.append(Inst('R-ALL', key, 'violation', t.get('line', ''),
+                                '`%s(%s)` visits only whole chunks and the remainder is never read: the last len %% %s elements are skipped' % (fn['name'], show(k), show(k)),
+                                props_by_module(fn_key(pf))))
+    if not out:
+        out.append(Inst('R-ALL', 'R-ALL|none', 'note', '', 'no exact-chunk iteration in the library', ['C17'], nontrivial=False))
+    return out
+
+
+# ---------------------------------------------------------------- R-SIG
+
+SIG_BASES = {'quadwt::QWaveletTree': ['C01'], 'quadwt::huffqwt::HuffQWaveletTree': ['C02'], 'binwt::WaveletTree': ['C03']}
+
+
+def rule_SIG(FA):
+    """The stored largest symbol (`sigma`: the bound of the symbol guard, `None for c > max(S)`) is the MAXIMUM of the
+    input: the value the constructor stores in the field derives from `Iterator::max` over a plain element iterator of the
+    sequence -- not from another reduction that happens to have the same bit width (OR, sum, last element)."""
+    out = []
+    for base, props in SIG_BASES.items():
+        adt = FA.adts.get(base)
+        f = (FA.by_base_name.get((base, 'new'), []) or [None])[0]
+        key = 'R-SIG|%s::new' % base
+        if adt is None or f is None:
+            out.append(Inst('R-SIG', key, 'violation', '', 'type or constructor not found (anchor lost)', props))
+            continue
+        names = [x['name'] for x in adt['fields']]
+        if 'sigma' not in names:
+            out.append(Inst('R-SIG', key, 'note', adt['span'], 'no field named sigma', props, nontrivial=False))
+            continue
+        fidx = names.index('sigma')
+        F = FA.fn(FA.inlined(f))
+        F.dom()
+        verdicts = []
+        for bi, b in enumerate(F.blocks):
+            if bi not in F.reach:
+                continue
+            for st in b['s']:
+                rv = st['rv']
+                if rv['k'] == 'agg' and rv['kind'].get('adt') == base and fidx < len(rv['ops']):
+                    o = rv['ops'][fidx]
+                    if 'p' not in o:
+                        continue   # a constant (empty tree)
+                    tm = norm(F.operand_term(o))
+                    if tm[:1] == ('call',) and tm[1].split('::')[-1] in ('default', 'zero', 'new'):
+                        continue
+                    S = backward_slice(F, [o['p']['l']])
+                    red = []
+                    for l in S:
+                        for d in F.defs.get(l, []):
+                            if d[1] == 'call' and 'fn' in d[2]['f']:
+                                red.append((d[2]['f']['fn']['name'], d[2]))
+                    names_r = [n for n, _ in red]
+                    mx = [t for n, t in red if n in ('max', 'max_by', 'max_by_key')]
+                    other = [n for n in names_r if n in ('fold', 'reduce', 'sum', 'product', 'min', 'last', 'try_fold', 'min_by', 'min_by_key')]
+                    if mx and not other:
+                        src = norm(F.operand_term(mx[0]['args'][0]))
+                        bad = _lossy_call(src)
+                        if bad:
+                            verdicts.append(('violation', st['line'], 'sigma is the maximum over `%s(..)`, which does not yield every element' % bad))
+                        else:
+                            verdicts.append(('ok', st['line'], 'sigma = max over %s' % show(src)[:60]))
+                    elif other:
+                        verdicts.append(('violation', st['line'], 'sigma is computed by `%s`, not by `max`: a value with the same bit width but larger than the largest symbol makes rank/select accept symbols that do not occur' % other[0]))
+                    elif tm[:1] == ('param',) or any(isinstance(x, tuple) and x[:1] == ('param',) for x in subterms(tm)) and not names_r:
+                        verdicts.append(('note', st['line'], 'sigma taken from a parameter'))
+                    else:
+                        verdicts.append(('note', st['line'], 'sigma computed without an iterator reduction (`%s`): not decided' % show(tm)[:60]))
+        if not verdicts:
+            out.append(Inst('R-SIG', key, 'violation', f['span'], 'no construction of %s with a computed sigma found (anchor lost)' % base.split('::')[-1], props))
+        for stt, line, detail in verdicts:
+            out.append(Inst('R-SIG', key, stt, line, detail, props, nontrivial=(stt != 'note')))
+    return out
+
+
+# ---------------------------------------------------------------- R-PRE
+
+def _entry_asserts(FA, g):
+    """[(param index (0-based incl. self), op, const)] for `assert!(param <op> CONST)` made unconditionally at the start of g"""
+    G = FA.fn(g)
+    G.dom()
+    out = []
+    for bi, b in enumerate(G.blocks):
+        if bi not in G.reach:
+            continue
+        t = b['t']
+        if t['k'] != 'switch':
+            continue
+        # one arm must run into a panic raised by assert! (not debug_assert!)
+        is_assert = False
+        for to in [a[1] for a in t['arms']] + [t['else']]:
+            cur = to
+            for _ in range(4):
+                tt = G.blocks[cur]['t']
+                if tt['k'] == 'call':
+                    ms = tt.get('macros', [])
+                    if tt['to'] < 0 and any(m == 'assert' for m in ms) and not any(m.startswith('debug_assert') for m in ms):
+                        is_assert = True
+                    break
+                if tt['k'] == 'goto':
+                    cur = tt['to']
+                else:
+                    break
+        if not is_assert or bi in G.debug_switches():
+            continue
+        # unconditional: every dominating switch is itself one of these asserts or a loop-free straight line
+        if any(a[0] in ('is', 'isnot') for a in path_atoms(G, bi)):
+            continue
+        # the surviving arm's condition
+        surv = [s2 for s2 in G.succ[bi]]
+        for to in surv:
+            tt = G.blocks[to]['t']
+            dead = tt['k'] == 'call' and tt['to'] < 0
+            if dead:
+                continue
+            for a in path_atoms(G, to):
+                if a[0] in ('<', '<=') and a[1][:1] == ('param',) and a[2][:1] == ('const',):
+                    names = {v: int(k) - 1 for k, v in g['names'].items() if 1 <= int(k) <= g['argc']}
+                    if a[1][1] in names and (names[a[1][1]], a[0], a[2][1]) not in out:
+                        out.append((names[a[1][1]], a[0], a[2][1]))
+    return out
+
+
+def rule_PRE(FA):
+    """Caller / callee agreement on a bound: when a crate function asserts `p <= C` on entry and a call site guards the same
+    argument with a *different* constant (`if id < 7 { f(id) }` where f asserts `id < 8`), one of the two beliefs is wrong
+    (Engler): a stricter caller silently skips valid work -- a sentinel never written --, a laxer one runs into the assert."""
+    out = []
+    pre = {}
+    for g in FA.lib_fns(include_closures=False):
+        a = _entry_asserts(FA, g)
+        if a:
+            pre[g['path']] = (g, a)
+    for f in FA.lib_fns():
+        for spec in FA.specs(f):
+            F = FA.fn(f, spec)
+            for bi, t in F.calls():
+                fn = t['f']['fn']
+                if not (fn.get('local') or fn.get('crate') == 'qwt'):
+                    continue
+                cands = FA.resolve(fn)
+                if len(cands) != 1 or cands[0]['path'] not in pre:
+                    continue
+                g, asserts = pre[cands[0]['path']]
+                atoms = path_atoms(F, bi)
+                for k, op, c in asserts:
+                    if k >= len(t['args']):
+                        continue
+                    arg = norm(F.operand_term(t['args'][k]))
+                    key = 'R-PRE|%s -> %s|#%d' % (fn_key(FA.closure_parent(f)), fn_key(g), k)
+                    mine = [(a[0], a[2][1]) for a in atoms if a[0] in ('<', '<=') and a[1] == arg and a[2][:1] == ('const',)]
+                    if not mine:
+                        continue
+                    lim_callee = c if op == '<=' else c - 1
+                    lims = [(cc if o == '<=' else cc - 1) for o, cc in mine]
+                    props = props_by_module(fn_key(FA.closure_parent(f)))
+                    if all(l == lim_callee for l in lims):
+                        out.append(Inst('R-PRE', key, 'ok', t.get('line', ''), 'caller guards `%s <= %d`, callee asserts the same bound' % (show(arg)[:40], lim_callee), props))
+                    else:
+                        l = [x for x in lims if x != lim_callee][0]
+                        out.append(Inst('R-PRE', key, 'violation', t.get('line', ''),
+                                        'the call of `%s` is guarded by `%s <= %d` but `%s` itself accepts `<= %d` (assert on entry): %s' % (
+                                            g['name'], show(arg)[:40], l, g['name'], lim_callee,
+                                            'the last valid value is never passed (a block / sentinel that is never written)' if l < lim_callee else 'the callee panics for the values in between'), props))
+    if not out:
+        out.append(Inst('R-PRE', 'R-PRE|none', 'note', '', 'no call site guards an argument that the callee asserts', ['C04'], nontrivial=False))
     return out
